@@ -17,5 +17,5 @@ while read -r name props; do
   echo "=== $name ($props)"
   patch="$dir/$name.diff"
   [ -f "$dir/$name/patch.diff" ] && patch="$dir/$name/patch.diff"
-  python3 tools/mutant_eval.py --with-tests "$patch" $props 2>&1 | tee "$dir/results/$name.log" | grep -E "^(EXISTING|CAUGHT|PATCH|refusing|C[0-9]+ (VIOLATION|INCON))" | cut -c1-300
+  python3 tools/mutant_eval.py --with-tests ${MUTANT_EVAL_FLAGS:-} "$patch" $props 2>&1 | tee "$dir/results/$name.log" | grep -E "^(EXISTING|CAUGHT|PATCH|refusing|C[0-9]+ (VIOLATION|INCON))" | cut -c1-300
 done < "$index"
